@@ -36,7 +36,7 @@ THEOREMS = ["JanetModel.Props.C09." + t for t in (
     "roundtrip_code", "roundtrip_funcdef", "roundtrip_funcenv", "code_ids_agree", "roundtrip_code_top",   # functions, funcdefs, closure envs
     "code_model_extends_data_model",                                                     # Code.lean = Graph.lean on data heaps (marshal side)
     "asm_disasm_instr", "asm_disasm_bytecode",                                           # asm . disasm on instruction words / bytecode arrays
-    "abstract_hook_roundtrip", "int64_hooks_paired", "int64_box_roundtrip", "channel_hooks_paired", "channel_roundtrip",  # abstract hook protocol
+    "abstract_hook_roundtrip", "int64_hooks_paired", "int64_box_roundtrip", "channel_hooks_paired", "channel_roundtrip", "peg_hooks_paired",  # abstract hook protocol
 )]
 
 CODE_OBLIGATIONS = ["JanetModel.Marsh.CodeObligations." + t for t in (
